@@ -553,7 +553,9 @@ def _produce(ctx, producer, nv, d):
     shape = (2, 3, 2)
     mesh = df.Mesh(region=df.Region(p1=(0.0, -1.5e-9, 2e-9), p2=(4e-9, 3e-9, 7e-9)), n=shape)
     vd = None if nv == 1 else ["a", "b", "c"][:nv]
-    f0 = df.Field(mesh, nvdim=nv, value=C.tracer(shape, nv, ctx.seed), vdims=vd, unit="A/m")
+    # sevenths: not representable in float32 either, so a field that silently keeps 4-byte precision after a bin4 file
+    # is visible in a later text / 8-byte write
+    f0 = df.Field(mesh, nvdim=nv, value=C.tracer(shape, nv, ctx.seed) / 7.0, vdims=vd, unit="A/m")
     if producer == "ctor":
         return f0
     ctx.step(1, f"producer {producer}")
